@@ -150,7 +150,12 @@ def parse_field_values_to_cinfo(field_values: FieldValues) -> version.V2Calendar
         dom   = int(fvals['dom'  ]) if 'dom' in fvals else None
 
     if year_y and month and dom:
-        date = dt.date(year_y, month, dom)
+        try:
+            date = dt.date(year_y, month, dom)
+        except ValueError as ex:
+            # e.g. day is out of range for month (February 30th)
+            err_msg = f"Invalid date {year_y}-{month}-{dom}: {ex}"
+            raise version.PatternError(err_msg)
 
     # Use of defaults is an all or nothing affair.
     # We don't to mix anything from TODAY with stuff
